@@ -417,6 +417,8 @@ def repo_state():
 def run_check(prop_id, tier, seed, replay=None):
     t0 = time.time()
     mod = load_module(prop_id)
+    if hasattr(mod, "prepare"):
+        mod.prepare()  # e.g. build the C reference once, before forking
     open_kf = load_known_findings(prop_id)
 
     # -- replay mode -----------------------------------------------------------------------
